@@ -286,4 +286,126 @@ Section WithV.
     all: first [ apply (sub2_len sub sub2 n _ 1 Hn); [unfold n; nia | lia | unfold n; ring | exact Hsub2]
                | match goal with |- _ = ?a * ?b => apply (sub2_len sub sub2 n _ b Hn); [unfold n; nia | lia | unfold n; ring | exact Hsub2] end ].
   Qed.
+
+  (** ** branches that store the unchanged value list *)
+  Lemma put_transfer h hr ax c c2 vs s :
+    hdr_wf h -> hdr_wf hr -> hdr_tight hr -> sdim hr = sdim h -> dims hr = rdims ax (dims h) ->
+    entry_ok h c vs -> canon_class (shape h) (dims h) (fden (dims h) c vs) c ->
+    put hr c2 vs = Ok s ->
+    mult_spec (dims hr) c2 = mult_spec (dims h) c ->
+    (is_slices c2 = true -> is_slices c = true) ->
+    (forall q, in_dims (dims h) q -> cidx (dims hr) c2 (rho_of ax q) = cidx (dims h) c q) ->
+    (forall x, class_ok (shape hr) x = true -> pref_rank x < pref_rank c2 ->
+               class_ok (shape h) x = true /\ pref_rank x < pref_rank c) ->
+    kcanon hr s.
+  Proof.
+    intros Hw Hwr Htr Hsd Edr [Hc [Hs Hl]] Hcan Hput Hm Hsl Hidx Hcls.
+    apply put_ok in Hput as [-> Hb]. rewrite Htr in Hb.
+    split.
+    - split; [exact Hb|]. split; [intros X; rewrite Hsd; apply Hs, Hsl, X | rewrite Hm; exact Hl].
+    - apply (canon_transfer (shape h) (shape hr) (dims h) (dims hr) c c2 vs (rho_of ax)); try assumption.
+      + intros q Hq. rewrite Edr. apply rho_in_dims; [apply dims_pos_of_wf; exact Hw | exact Hq].
+      + intros q q' x. apply rho_proj.
+  Qed.
+
+  Lemma preserving_slices :
+    preserving (Some TSlices) = Some [VSlices; GSlices] /\ preserving (Some VSlices) = Some [GSlices].
+  Proof. vm_compute. split; reflexivity. Qed.
+
+  (** ** [_copy_sample] along time *)
+  Lemma copy_sample_time_canon h hr c vs idx r nS nT nV :
+    hdr_wf h -> hdr_wf hr -> hdr_tight hr -> sdim hr = sdim h ->
+    dims h = (nS, nT, nV) -> dims hr = (nS, 1, nV) ->
+    (forall x, class_ok (shape hr) x = true -> class_ok (shape h) x = true) -> notrail hr ->
+    entry_ok h c vs -> c <> GConst -> canon_class (shape h) (dims h) (fden (dims h) c vs) c -> idx < nT ->
+    copy_sample_k veqb vnone h hr c vs BTime idx = Ok r -> kcanon hr r.
+  Proof.
+    intros Hw Hwr Htr Hsd Ed Edr Hmono [Hnt4 Hnt5] Hok Hne Hcan Hidx H. pose proof Hok as [Hc [Hs Hl]].
+    pose proof (dims_pos_of_wf h Hw) as Hpos. rewrite Ed in Hpos. destruct Hpos as [HS [HT HV]].
+    assert (Edr' : dims hr = rdims (Some 1) (dims h)) by (rewrite Ed; exact Edr).
+    rewrite Edr in Hnt4, Hnt5. cbn [fst snd] in Hnt4, Hnt5.
+    destruct copy_dests_eq as [_ [_ [Esd _]]]. destruct preserving_slices as [EpT EpV].
+    pose proof (class_ok_by_dims hr nS 1 nV Hwr Edr) as Hcases.
+    assert (Hcls5 : forall x, base_of x = BVector -> class_ok (shape hr) x = true ->
+                    ndim hr = 5 /\ forall y, class_ok (shape hr) y = match base_of y with BTime => false | _ => true end).
+    { intros x Hbx Hx. destruct Hcases as [[_ [_ [_ Hcls]]]|[[_ [_ Hcls]]|[Hnd Hcls]]];
+        try (rewrite Hcls, Hbx in Hx; discriminate Hx). split; [exact Hnd|]. intros y. rewrite Hcls. reflexivity. }
+    unfold copy_sample_k in H. rewrite Ed in Hl.
+    destruct c; try contradiction; cbn [is_samples sub_of base_of cbase_eqb cls_eqb negb mult_spec] in *.
+    - (* GSlices *)
+      apply bind_ok in H as [sub [Hsub H]]. apply bind_ok in H as [s [Hput H]].
+      apply put_ok in Hput as [-> Hb]. rewrite Htr in Hb.
+      apply (finish_simplify hr GSlices sub r Hwr Htr); [| intros X; discriminate X | exact H].
+      split; [exact Hb|]. split; [intros _; rewrite Hsd; apply Hs; reflexivity|]. rewrite Edr. cbn [mult_spec].
+      unfold global_slice_subset in Hsub. rewrite (n_slices_dims h Hw (Hs eq_refl)), Ed in Hsub. cbn [fst] in Hsub.
+      rewrite class_valid_ok in Hsub.
+      destruct (class_ok (shape h) VSamples) eqn:EV; cbn [negb] in Hsub.
+      + destruct (shape_at h 3) as [t|] eqn:E3; [|discriminate]. destruct (shape_at h 4) as [v|] eqn:E4; [|discriminate].
+        apply shape_at3_dims in E3. apply shape_at4_dims in E4. rewrite Ed in E3, E4. cbn [fst snd] in E3, E4. subst t v.
+        injection Hsub as <-. rewrite (flat_map_len_const _ nS); [rewrite seq_length; lia|].
+        intros vec Hvec. apply in_seq in Hvec. apply py_slice_len_in. rewrite Hl. nia.
+      + injection Hsub as <-.
+        assert (nV = 1).
+        { destruct (class_ok_by_dims h nS nT nV Hw Ed) as [[_ [_ [-> _]]]|[[_ [-> _]]|[_ Hcls]]]; try reflexivity.
+          rewrite Hcls in EV. discriminate EV. }
+        subst nV. rewrite py_slice_len_in; [lia|]. rewrite Hl. nia.
+    - (* TSamples *)
+      apply bind_ok in H as [dest [Hdest H]]. apply bind_ok in H as [dm [Hdm H]].
+      rewrite Esd in Hdest. cbn [find cls_eqb negb andb] in Hdest. rewrite !class_valid_ok in Hdest.
+      destruct (class_ok (shape hr) VSamples) eqn:EV.
+      + injection Hdest as <-. destruct (Hcls5 VSamples eq_refl EV) as [Hnd _].
+        destruct (mult_of_ok hr VSamples dm Hwr ltac:(intros X; discriminate X) Hdm) as [_ ->]. rewrite Edr in H.
+        cbn [mult_spec] in H. destruct (Nat.eqb_spec nV 1) as [->|HnV]; [exfalso; apply (Hnt5 Hnd); reflexivity|].
+        destruct (shape_at h 3) as [t|] eqn:E3; [|discriminate].
+        apply shape_at3_dims in E3. rewrite Ed in E3. cbn [fst snd] in E3. subst t.
+        destruct nT as [|nT']; [lia|]. apply bind_ok in H as [s [Hput H]].
+        apply put_ok in Hput as [-> Hb]. rewrite Htr in Hb.
+        apply (finish_simplify hr VSamples _ r Hwr Htr); [| intros X; discriminate X | exact H].
+        split; [exact Hb|]. split; [intros X; discriminate X|]. rewrite Edr. cbn [mult_spec].
+        apply every_nth_length; [exact Hidx | rewrite Hl; ring].
+      + cbn [find] in Hdest. rewrite (class_ok_gconst hr Hwr) in Hdest. injection Hdest as <-.
+        destruct (mult_of_ok hr GConst dm Hwr ltac:(intros X; discriminate X) Hdm) as [_ ->]. rewrite Edr in H.
+        cbn [mult_spec Nat.eqb] in H. destruct (nth_error vs idx) as [v|]; [|discriminate].
+        apply put_ok in H as [-> _]. apply kcanon_gconst; [exact Hwr | reflexivity].
+    - (* TSlices *)
+      rewrite EpT in H. unfold first_valid in H. cbn [find] in H. rewrite !class_valid_ok in H.
+      destruct (class_ok (shape hr) VSlices) eqn:EV.
+      + destruct (Hcls5 VSlices eq_refl EV) as [Hnd Hcls].
+        apply (put_transfer h hr (Some 1) TSlices VSlices vs r Hw Hwr Htr Hsd Edr' Hok Hcan H).
+        * rewrite Edr, Ed. cbn [mult_spec]. lia.
+        * reflexivity.
+        * intros [[s t] v] _. rewrite Edr, Ed. cbn [rho_of cidx]. lia.
+        * intros x Hx Hr. split; [apply Hmono; exact Hx|]. rewrite Hcls in Hx.
+          destruct x; cbn [base_of pref_rank] in *; try discriminate; lia.
+      + assert (Hg : class_ok (shape hr) GSlices = true).
+        { destruct Hcases as [[_ [_ [_ Hcls]]]|[[_ [_ Hcls]]|[_ Hcls]]]; rewrite Hcls; reflexivity. }
+        rewrite Hg in H.
+        assert (Hnd : ndim hr = 3 /\ nV = 1).
+        { destruct Hcases as [[Hnd [_ [-> Hcls]]]|[[Hnd [-> Hcls]]|[Hnd Hcls]]].
+          - split; reflexivity.
+          - exfalso. apply (Hnt4 Hnd). reflexivity.
+          - rewrite Hcls in EV. discriminate EV. }
+        destruct Hnd as [Hnd ->].
+        apply (put_transfer h hr (Some 1) TSlices GSlices vs r Hw Hwr Htr Hsd Edr' Hok Hcan H).
+        * rewrite Edr, Ed. cbn [mult_spec]. lia.
+        * reflexivity.
+        * intros [[s t] v] Hq. rewrite Edr, Ed in *. cbn [in_dims rho_of cidx] in *. nia.
+        * intros x Hx Hr. split; [apply Hmono; exact Hx|].
+          destruct Hcases as [[_ [_ [_ Hcls]]]|[[Hnd4 _]|[Hnd5 _]]]; try lia.
+          rewrite Hcls in Hx. destruct x; cbn [base_of pref_rank] in *; try discriminate; lia.
+    - (* VSamples *)
+      apply (put_transfer h hr (Some 1) VSamples VSamples vs r Hw Hwr Htr Hsd Edr' Hok Hcan H).
+      + rewrite Edr, Ed. reflexivity.
+      + intros X; exact X.
+      + intros [[s t] v] _. rewrite Edr, Ed. reflexivity.
+      + intros x Hx Hr. split; [apply Hmono; exact Hx | exact Hr].
+    - (* VSlices *)
+      rewrite (n_slices_dims hr Hwr) in H by (rewrite Hsd; apply Hs; reflexivity). rewrite Edr in H. cbn [fst] in H.
+      apply bind_ok in H as [s [Hput H]]. apply put_ok in Hput as [-> Hb]. rewrite Htr in Hb.
+      destruct (Hcls5 VSlices eq_refl Hb) as [Hnd Hcls].
+      apply (finish_simplify hr VSlices _ r Hwr Htr); [| | exact H].
+      + split; [exact Hb|]. split; [intros _; rewrite Hsd; apply Hs; reflexivity|]. rewrite Edr. cbn [mult_spec].
+        rewrite py_slice_len_in; [lia|]. rewrite Hl. nia.
+      + intros _. left. specialize (Htr TSamples). cbn [base_of has_base] in Htr. rewrite Htr, Hcls. reflexivity.
+  Qed.
 End WithV.
